@@ -74,13 +74,14 @@ A("transcribed, the NaN + ignores-mask clause is unspecified), C19 (declared nam
 A("oracle only), C20 (the regridding is `reproject`; adaptive: no value check), dask clauses of C01 / C08 / C10 (payloads")
 A("are computed before comparison; laziness itself is not modelled).\n")
 A("### 0.3 Seeded changes: which checks catch which changes\n")
-A(f"{len(seeds)} changes (four rounds of 3 per property; the fourth asked for changes that only show through state, unusual argument")
+A(f"{len(seeds)} changes (four rounds of 3 per property and a fifth for ten of them; the later rounds asked for changes that only show through state, unusual argument")
 A("forms, inputs that are themselves results, or coinciding circumstances) were produced by fresh sub-agents that saw")
 A("only the property text and a scratch worktree, confirmed by me in that worktree (demo passes clean / fails patched, pinned")
 A("suite's stable set still passes), stored under `seeded/<id>-<k>/` and run against the check with `tools/try_seed.sh` (apply")
 A(f"to /repo, check, `git checkout -- .`).  All {len(seeds)} are detected by the current checks (`tools/rerun_seeds.py` re-runs them")
-A("all; result in `seeded/STATUS.json`); one of them, C06-11, leaves every clause of C06 true and is caught by the C09 check")
-A("instead (`meta.json` names the check in `detected_by`).  One fourth-round change for C17 was")
+A("all; result in `seeded/STATUS.json`); two of them are caught by another property's check (`meta.json` names it in")
+A("`detected_by`): C06-11 leaves every clause of C06 true and is caught by the C09 check, C17-14 needs a multi-table extra")
+A("coordinate, which the C17 generator does not attach, and is caught by the C02 check.  One fourth-round change for C17 was")
 A("neutralised by a repair made meanwhile (`extra_coords.add` now turns numpy-integer axes into ints) and is not stored.")
 A(f"{len(missed)} were missed (or caught only through the model) by the first version of")
 A("their check and led to the strengthening noted below; patches that no longer applied after a later repair of the same")
